@@ -6,7 +6,6 @@ package vctx
 import (
 	"context"
 	"time"
-	"unsafe"
 
 	"github.com/kubewharf/kubebrain/zz_verif/rt/vrt"
 )
@@ -18,7 +17,7 @@ func WithCancel(parent Context) (Context, CancelFunc) {
 		return ctx, cancel
 	}
 	return ctx, func() {
-		vrt.Write(unsafe.Pointer(nil), "ctx.cancel")
+		vrt.CtxCancel()
 		cancel()
 	}
 }
@@ -59,11 +58,12 @@ func WithDeadline(parent Context, d time.Time) (Context, CancelFunc) {
 		if ctx.Err() == nil {
 			*fired = true
 		}
+		vrt.CtxCancel()
 		cancel()
 	})
 	return dc, func() {
 		t.Stop()
-		vrt.Write(unsafe.Pointer(nil), "ctx.cancel")
+		vrt.CtxCancel()
 		cancel()
 	}
 }
